@@ -171,6 +171,7 @@ def check(run):
                         run.obligation('correspondence loader model=code', False, 'present %s: model %s code tasks %s flag %s; program %s' % (S, ans, got_keys, flag, json.dumps(G.lines)[:400]))
                 if len(run.samples) < 2 and flag and passed >= 1:
                     run.sample({'program': G.lines, 'present_keys': S, 'loaded_task_keys': got_keys, 'barrier_flag': flag, 'markers_executed': marks})
+        deep_and_reload_family(run, scratch)
         # real concurrent processes
         process_family(run, rng, scratch, 2 if quick else 12)
         if drv is not None and run.corr_disagreements == 0:
@@ -213,7 +214,74 @@ def process_family(run, rng, scratch, n):
         core.rm_rf(d)
 
 
+DEEP = '''from jug import TaskGenerator, barrier
+import sys
+sys.path.insert(0, %(harness)r)
+from jugverif.loadercheck import MARKS
+@TaskGenerator
+def nxt(x):
+    return x + 1
+t = nxt(0)
+for _i in range(%(depth)d):
+    t = nxt(t)
+barrier()
+MARKS.append('after')
+u = nxt(t)
+'''
+
+
+def deep_and_reload_family(run, scratch):
+    """(a) a barrier behind a dependency chain deeper than the recursion limit allows to walk recursively: it must stay closed while any task of the
+    chain - in particular the last one - has no result; (b) a result that disappears between two loads by the same process (another
+    process invalidated it) closes the barrier again"""
+    from jug.backends.dict_store import dict_store
+    for depth in (30, 400, 1200):
+        path = os.path.join(scratch, 'deep%d.py' % depth)
+        open(path, 'w').write(DEEP % {'harness': os.path.join(core.VERIF, 'harness'), 'depth': depth})
+        store = dict_store()
+        tasks, space, flag, marks, _ = L.real_load(path, store)
+        rp = {'kind': 'deep-barrier', 'depth': depth}
+        run.case(('deep-barrier', depth), nontrivial=True)
+        run.count('deep_barrier_cases')
+        if not flag or 'after' in marks:
+            run.fail('barrier-open-on-empty-store', 'chain of %d tasks, empty store: the barrier is open' % depth, rp)
+            continue
+        # compute everything of the first phase except the LAST task before the barrier
+        import jug.task
+        jug.task.Task.store = store
+        for t_ in tasks[:-1]:
+            t_.store = store
+            if not t_.can_load():
+                t_.run()
+        tasks2, space2, flag2, marks2, _ = L.real_load(path, store)
+        if not flag2 or 'after' in marks2:
+            run.fail('barrier-crossed-early', 'chain of %d tasks, every result stored except that of the last task created before barrier(): the barrier opens and the code behind it runs' % depth, rp)
+            continue
+        # (b) now complete it: the barrier opens; then one result disappears: the same process must see the barrier closed again
+        last = tasks2[-1]
+        last.store = store
+        last.run()
+        tasks3, _, flag3, marks3, _ = L.real_load(path, store)
+        if flag3 or 'after' not in marks3:
+            run.fail('barrier-closed-though-complete', 'chain of %d tasks, all results stored: the barrier stays closed' % depth, rp)
+            continue
+        victim = tasks3[len(tasks3) // 2]
+        store.remove(victim.hash())
+        tasks4, _, flag4, marks4, _ = L.real_load(path, store)
+        if not flag4 or 'after' in marks4:
+            run.fail('barrier-ignores-removed-result', 'chain of %d tasks: after a barrier had been passed, the result of a task before it was removed (invalidate by another process); on the next '
+                     'load by the same process (same store object) the barrier is still open' % depth, rp)
+
+
 def replay(path):
+    d0 = json.load(open(path)) if True else None
+    if d0 and d0.get('replay', {}).get('kind') == 'deep-barrier':
+        print(d0['what'])
+        sc = core.scratch_dir()
+        try:
+            return core.replay_family('C14', d0['key'], lambda run_: deep_and_reload_family(run_, sc))
+        finally:
+            core.rm_rf(sc)
     d = json.load(open(path))
     print(d['what'][:1000])
     print(d['replay'].get('program', ''))
